@@ -157,6 +157,14 @@ func runCase(k *vf.Case, traced bool) {
 		// tiny event / link queues: every further event evicts the oldest one in place
 		lim.EventCountLimit, lim.LinkCountLimit = vf.Pick(r, []int{1, 2, 4}), vf.Pick(r, []int{1, 2, 4})
 	}
+	// a quarter of the cases: shared spans that are exactly at their attribute count limit from the start (new
+	// keys are dropped as a whole, so tagged groups stay all-or-nothing; writes to held keys take the
+	// over-capacity path - also the ones attempted after End)
+	attrLimited := r.Chance(1, 4)
+	if attrLimited {
+		lim.AttributeCountLimit = 3
+		k.C.Count("cases_with_spans_at_their_attribute_limit", 1)
+	}
 	p1 := &recProc{name: "p1", got: map[trace.SpanID][]delivered{}}
 	p2 := &recProc{name: "p2", got: map[trace.SpanID][]delivered{}}
 	var churnMu sync.Mutex
@@ -172,7 +180,11 @@ func runCase(k *vf.Case, traced bool) {
 			name = "recordonly-" + name
 			k.C.Count("record_only_shared_spans", 1)
 		}
-		ctx, sp := tr.Start(context.Background(), name)
+		var sopts []trace.SpanStartOption
+		if attrLimited {
+			sopts = append(sopts, trace.WithAttributes(attribute.String("pre0", "v"), attribute.String("pre1", "v"), attribute.String("pre2", "v")))
+		}
+		ctx, sp := tr.Start(context.Background(), name, sopts...)
 		spans = append(spans, shared{sp, ctx, sp.SpanContext().SpanID()})
 	}
 	G := vf.Pick(r, []int{2, 4, 8, 16})
@@ -369,6 +381,7 @@ func runCase(k *vf.Case, traced bool) {
 			ops = append(ops, op)
 		}
 		s.span.SetAttributes(attribute.String("post", "end"))
+		s.span.SetAttributes(attribute.String("pre0", "changed-after-end"), attribute.String("post2", "end"))
 		s.span.AddEvent("post-end")
 		s.span.SetName("post-end")
 		s.span.End()
@@ -459,8 +472,8 @@ func runCase(k *vf.Case, traced bool) {
 					fail("torn-mutation", "attribute value", key)
 				}
 			}
-			if key == "post" {
-				fail("post-end-mutation-visible", "", "")
+			if key == "post" || key == "post2" || (key == "pre0" && kv.Value.AsString() != "v") {
+				fail("post-end-mutation-visible", "", key+"="+kv.Value.AsString())
 			}
 			if strings.HasPrefix(key, "scribble") {
 				fail("span-kept-the-callers-slice", "", "the snapshot holds "+key+", which the caller wrote into its own buffer after SetAttributes had returned")
